@@ -1201,7 +1201,10 @@ fn make_case(stream: &str, text: &str, intended: Option<&str>, mut tags: Vec<Str
     tags.push(format!("len:{}", match n_chars { 0..=99 => "<100", 100..=399 => "100-399", 400..=999 => "400-999", _ => ">=1000" }));
     tags.sort();
     tags.dedup();
-    let args = format!("{} {} {} {} {}", coq_str(text), uni, queries, merged, regexes);
+    // <str as Debug> on the non-ASCII characters of the text (verbatim or \u{..}): read by the model for the text of `node`
+    // statements (Display of the variable; dump.rs writes `format!("{}", node)` into that field of the real AST)
+    let print = crate::c20d::print_table(&[text]);
+    let args = format!("{} {} {} {} {} {}", coq_str(text), uni, queries, merged, regexes, print);
     let nontrivial = if stream == "C07" { parsed_ok && (pred.tags.contains("comment") || pred.tags.contains("query:comment") || !text.is_ascii()) && pred.n_stmts >= 3 }
                      else { pred.toks.len() >= 3 || n_chars >= 8 };
     let replay = json!({"stream": stream, "text": text, "impl": imp, "intended": intended,
@@ -1212,7 +1215,8 @@ fn make_case(stream: &str, text: &str, intended: Option<&str>, mut tags: Vec<Str
            replay, nontrivial, key: fnv(text), tags }
 }
 
-/// hand-written VALID texts in every C07 run: the layouts of a global that the repaired parse_quantifier accepts
+/// hand-written VALID texts in every C07 run: a `node` statement whose Display text needs the <str as Debug> table, and the
+/// layouts of a global that the repaired parse_quantifier accepts
 /// (no whitespace needed after the name; formerly ExpectedQuantifier) next to the ones that were always accepted
 const FIXED_VALID: &[&str] = &[
     "global x=\"a\"\n(module) @m { }",
@@ -1228,6 +1232,9 @@ const FIXED_VALID: &[&str] = &[
     "(module) @m { }\nglobal x;c",
     "global x=\"a\"global y*global z;c\n=;d\n\"e\"inherit .w global v",
     "global x = \"a\"\nglobal y ;c\n(module) @m { }",
+    // the text of a `node` statement whose scope is a string constant: <str as Debug> escapes U+00A0 and U+2028 and prints é
+    // verbatim (rows false / false / true of the model's x_print table)
+    "(module) @m { node \"a\u{a0}\u{e9}\u{2028}\\n\".x node @m.\u{e9}y }",
 ];
 
 pub fn gen(rng: &mut Rng, n: usize) -> Vec<Case> {
